@@ -478,3 +478,58 @@ def s6(I):
     if kind == 'full_last_expired':
         I.check('expired_farm_closed', get_farm(I, fl[-1][0]) is None)
         I.check('expired_farm_refunded_to_its_owner', smt.Eq(b.get('owner2', 'uusd'), pre.get('owner2', 'uusd') + 10))
+
+
+# ---------------------------------------------------------------- explicit farm identifiers are unique across ALL LP tokens
+
+_S7_IDENTS = ['new', 'taken', 'other']
+
+
+def _replay_s7(m):
+    ep = m['epoch']
+    ident = _S7_IDENTS[m['_choices']['ident']]
+    farms = [('m-taken', 'owner1', LP1, 'uusd', 10, 0, 1, ep - 1, ep + 5), ('m-other', 'owner2', LP2, 'uusd', 20, 0, 2, ep - 1, ep + 9)]
+    return {'now_s': m['now_s'], 'farms': farms, 'counters': {'farm': 3},
+            'mints': [('farm_manager', [('uusd', 30)]), ('creator', [('uusd', m['reward']), ('uom', 1000)])],
+            'config': {'create_farm_fee': {'denom': 'uom', 'amount': '1000'}, 'max_concurrent_farms': 5},
+            'txs': [('creator', _farm_msg('create', params=_params_json('uusd', m['reward'], ep + 1, ep + 11, ident=ident)), [('uom', 1000), ('uusd', m['reward'])])]}
+
+
+@obligation('C11', 'S7.create_with_explicit_identifier', entries=['execute', 'create_farm', 'validate_identifier', 'get_farm_by_identifier'], kind='S',
+            statement='creating a farm with an explicit identifier: refused when a farm with that identifier exists -- on this LP token or on ANY other -- and no existing farm '
+                      'changes owner, budget or LP token; a fresh identifier is accepted and stored with the m- prefix',
+            bounds='one live farm on this LP token, one on another; identifier in {fresh, taken here, taken on the other LP token}; symbolic reward / time',
+            covers=['created', 'refused'], replay=fm_replay(lambda m: _replay_s7(m)))
+def s7(I):
+    I.set_hint(dict(HINT, epoch=100, now_s=100 * DAY + 5))
+    now, ep, b = _world(I)
+    I.assume(ep >= 3)
+    fm_config(I, fee=coin_v('uom', 1000), max_concurrent=5)
+    put_farm(I, farm('m-taken', 'owner1', LP1, 'uusd', 10, 0, 1, simp(ep - 1), simp(ep + 5)))
+    put_farm(I, farm('m-other', 'owner2', LP2, 'uusd', 20, 0, 2, simp(ep - 1), simp(ep + 9)))
+    b.set(FM, 'uusd', 30)
+    ident = _S7_IDENTS[I.choose(3, 'ident')]
+    reward = I.sym('reward', lo=1000, hi=U128 // 2)
+    b.set('creator', 'uusd', reward)
+    b.set('creator', 'uom', 1000)
+    def sig(f):
+        return [f.get('owner'), f.get('lp_denom'), f.get('farm_asset').get('denom'), f.get('farm_asset').get('amount'), f.get('claimed_amount'),
+                f.get('emission_rate'), f.get('start_epoch'), f.get('preliminary_end_epoch')]
+    before = {k: sig(get_farm(I, k)) for k in ('m-taken', 'm-other')}
+    ch = Chain(I, CONTRACTS_FM)
+    st, resp = ch.execute('creator', FM, manage_farm('Create', params=farm_params(LP1, coin_v('uusd', reward), simp(ep + 1), simp(ep + 11), ident=ident)),
+                          [coin_v('uom', 1000), coin_v('uusd', reward)])
+    I.observe('status', 'ok' if st == 'ok' else 'err')
+    for k in ('m-taken', 'm-other', 'm-new'):
+        observe_farm(I, k)
+    observe_balances(I, b, [(FM, 'uusd'), ('creator', 'uusd')])
+    for k in ('m-taken', 'm-other'):
+        I.check('existing_farms_untouched', get_farm(I, k) is not None and smt.And(*[I.values_eq(x, y) for x, y in zip(sig(get_farm(I, k)), before[k])]))
+    if st != 'ok':
+        I.cover('refused')
+        I.check('fresh_identifier_accepted', ident != 'new')
+        return
+    I.cover('created')
+    I.check('identifier_in_use_refused', ident == 'new')
+    nf = get_farm(I, 'm-new')
+    I.check('stored_under_the_prefixed_identifier', nf is not None and nf.get('owner') == 'creator' and nf.get('lp_denom') == LP1)
